@@ -216,6 +216,23 @@ def f_ole_vector_count(n):
     return "doc", out, len(out)
 
 
+def f_ppt_nested_slide_lists(n):
+    """'PowerPoint Document' stream whose SlideListWithText containers are nested n deep around one slide's text."""
+    from vlib.gen import cfb, docs
+
+    def rec(ver, inst, rtype, payload):
+        return struct.pack("<HHI", ver | (inst << 4), rtype, len(payload)) + payload
+    inner = rec(0, 0, 0x03F3, struct.pack("<IIiI", 1, 0, 0, 256) + b"\x00" * 4) + rec(0, 0, 0x0F9F, struct.pack("<I", 1)) + rec(0, 0, 0x0FA0, "qb00001z hello".encode("utf-16-le"))
+    for _ in range(n):
+        inner = rec(0xF, 0, 0x0FF0, inner)
+    stream = rec(0xF, 0, 0x03E8, rec(1, 0, 0x03E9, b"\x00" * 40) + inner)
+    base, _ = docs.build("ppt", 1)
+    streams = dict(cfb.read_cfb(base))
+    streams["PowerPoint Document"] = stream
+    out = cfb.make_cfb(streams)
+    return "ppt", out, len(out)
+
+
 def f_zip_many_small_members(n):
     bio = io.BytesIO()
     with zipfile.ZipFile(bio, "w", zipfile.ZIP_DEFLATED) as z:
@@ -236,7 +253,7 @@ FAMILIES = {
     "html-colspan-rowspan": (f_html_colspan, [2_000_000, 4_000_000, 8_000_000, 16_000_000], "count"),
     "docx-gridspan": (f_docx_gridspan, [2_000_000, 4_000_000, 8_000_000, 16_000_000], "count"),
     "xlsx-declared-dimension": (f_xlsx_declared_dimension, [100, 200, 400, 800], "count"),
-    "docx-deep-nested-tables": (f_docx_deep_tables, [20, 40, 80, 160], "size"),
+    "docx-deep-nested-tables": (f_docx_deep_tables, [40, 80, 160, 320], "size"),
     "docx-entity-expansion": (f_docx_entity_bomb, [4, 6, 8, 10], "count"),
     "html-deep-divs": (f_html_deep_divs, [200, 400, 800, 1600], "size"),
     "html-unterminated-comments": (f_html_unterminated_comment, [2_000, 4_000, 8_000, 16_000], "size"),
@@ -250,6 +267,7 @@ FAMILIES = {
     "pdf-many-pages": (f_pdf_many_pages, [25, 50, 100, 200], "size"),
     "pdf-page-tree-cycle": (f_pdf_kids_cycle, [5, 10, 20, 40], "size"),
     "ole-property-vector-count": (f_ole_vector_count, [1 << 20, 1 << 21, 1 << 22, 1 << 23], "count"),
+    "ppt-nested-slide-lists": (f_ppt_nested_slide_lists, [250, 500, 1_000, 2_000], "size"),
     "zip-many-small-members": (f_zip_many_small_members, [250, 500, 1_000, 2_000], "size"),
 }
 
